@@ -34,6 +34,13 @@ t("deprecated/parameter", "Deprecated",
   "{file}module M\n{depdef}" + DEP + "struct D {{}}\n{encl2}interface I {{ {encl}op({elem}a: D, {sib}b: bool) {sib2}other() }}\n", ["elem", "encl", "encl2"], ["sib", "sib2", "depdef"])
 t("deprecated/return-member", "Deprecated",
   "{file}module M\n{depdef}" + DEP + "struct D {{}}\n{encl2}interface I {{ {encl}op() -> ({elem}a: D, {sib}b: bool) }}\n", ["elem", "encl", "encl2"], ["sib", "depdef"])
+# a parameter and a return member of one operation may share a name: a suppression on one is not a suppression on the other
+t("deprecated/parameter-named-like-return-member", "Deprecated",
+  "{file}module M\n{depdef}" + DEP + "struct D {{}}\n{encl2}interface I {{ {encl}op({elem}x: D, {sib}b: bool) -> ({sib2}x: bool, y: bool) }}\n",
+  ["elem", "encl", "encl2"], ["sib", "sib2", "depdef"])
+t("deprecated/return-member-named-like-parameter", "Deprecated",
+  "{file}module M\n{depdef}" + DEP + "struct D {{}}\n{encl2}interface I {{ {encl}op({sib2}x: bool, {sib}b: bool) -> ({elem}x: D, y: bool) }}\n",
+  ["elem", "encl", "encl2"], ["sib", "sib2", "depdef"])
 t("deprecated/single-return", "Deprecated",
   "{file}module M\n{depdef}" + DEP + "struct D {{}}\n{encl2}interface I {{ {encl}op() -> D }}\n", ["encl", "encl2"], ["depdef"])
 t("deprecated/alias", "Deprecated",
@@ -427,11 +434,15 @@ def make_random(rng, n):
             e.fields.insert(rng.randint(0, len(e.fields)), new)
         elif isinstance(e, Operation):
             name, t = dep_ref()
+            pnames, rnames = [p.id for p in e.params], [r.id for r in e.returns if not r.unnamed]
             if e.return_tuple and len(e.returns) >= 2 and rng.random() < 0.5:
-                new = Param("zdep%d" % k, wrap(t))
+                # sometimes named like a parameter (parameters and return members are separate name scopes)
+                free = [x for x in pnames if x not in rnames]
+                new = Param(rng.choice(free) if free and rng.random() < 0.5 else "zdep%d" % k, wrap(t))
                 e.returns.insert(0, new)
             else:
-                new = Param("zdep%d" % k, wrap(t))
+                free = [x for x in rnames if x not in pnames]
+                new = Param(rng.choice(free) if free and rng.random() < 0.5 else "zdep%d" % k, wrap(t))
                 e.params.insert(0, new)
             new.parent = e
         elif isinstance(e, Enumerator) and e.fields is not None:
